@@ -51,7 +51,7 @@ class Exec:
         self.sc = sc
         self.n = len(sc["tasks"])
         self.scratch = scratch
-        self.world = vloop.PoolWorld(start_failures={f"t{i}" for i in sc.get("start_fail", ())},
+        self.world = vloop.PoolWorld(start_failures={f"t{i}" for i in sc.get("start_fail", ())}, stubborn={f"t{i}" for i, t in enumerate(sc["tasks"]) if t.get("stubborn")},
                                      payloads={f"t{i}": p for i, p in sc.get("payloads", {}).items()})
         self.loop = self.world.loop
         self.violations = []  # (property, what, detail)
@@ -416,6 +416,8 @@ class Exec:
         for p in self.world.procs:
             if p.alive:
                 out.append(("C13", "process still alive at the horizon", dict(proc=p.tag)))
+            elif p.stubborn and not p.killed and states.get(int(p.tag[1:])) in ("CANCELLED", "KILLED"):
+                out.append(("C13", "a command of the cancelled / timed-out task that ignores SIGTERM was never sent SIGKILL and keeps running", dict(proc=p.tag, state=states.get(int(p.tag[1:])), terminated=p.terminated)))
         if self.clients:
             # C14: whatever a misbehaving client sent, every accepted task ends as its owner's requests and the environment determine
             out += [("C14", w, d) for p_, w, d in list(out) if p_ in ("C11", "C13") and w.startswith(("final task state", "task ran although"))]
